@@ -93,6 +93,30 @@ DEFAULTABLE = [0, 1, 2, 3, 4, 5, 8, 17, 18, 19, 20, 21, 23, 24]
 INTERNAL = ("_instantiated", "_none_fields", "_trust_supplied_values", "_skip_validation")
 
 
+_MSG_SUBS = None
+
+
+def canon_msg(e):
+    """text of an exception, without what differs between two processes by construction (addresses, the number in
+    the name of an inline class, the pid in the name of the scratch module)"""
+    global _MSG_SUBS
+    import re
+    if _MSG_SUBS is None:
+        _MSG_SUBS = [(re.compile(r"0x[0-9a-fA-F]+"), "0x"), (re.compile(r"StructureReference_\d+"), "StructureReference_N"),
+                     (re.compile(r"verif_scoped_\d+"), "verif_scoped"), (re.compile(r"verif_world_\w+"), "verif_world"),
+                     # the repr of a class lists its __dict__: the generated serializer and its flags are tracked as
+                     # STATE (ownSerialize / created), they are not part of an error text's content
+                     (re.compile(r"(serialize|_created_fast_serializer|_failed_serializer_creation) = "
+                                 r"(<function \S+ at 0x>|True|False), "), ""),
+                     (re.compile(r",? ?(serialize|_created_fast_serializer|_failed_serializer_creation) = "
+                                 r"(<function \S+ at 0x>|True|False)"), ""),
+                     (re.compile(r"Properties: ?>"), "Properties:>")]
+    s = str(e)
+    for rx, rep in _MSG_SUBS:
+        s = rx.sub(rep, s)
+    return s[:240]
+
+
 def err_name(e):
     from typedpy.commons import InvalidStructureErr
     if isinstance(e, InvalidStructureErr):
@@ -581,14 +605,18 @@ class Env:
                 if len(instances) < 3:
                     instances.append(x)
             except Exception as e:
-                accept.append([name, err_name(e)])
+                accept.append([name, err_name(e), canon_msg(e)])
         fp["accept"] = accept
+        try:
+            fp["signature"] = canon_msg(inspect.signature(cls))
+        except Exception as e:
+            fp["signature"] = {"err": err_name(e)}
 
         def attempt(f):
             try:
                 return {"ok": f()}
             except Exception as e:
-                return {"err": err_name(e)}
+                return {"err": err_name(e), "msg": canon_msg(e)}
         ser = []
         for x in instances:
             r = {}
@@ -654,6 +682,45 @@ class Env:
             fp["schema"] = {"err": err_name(e)}
         fp["requiredAfterSchema"] = sorted(cls._required)
         fp["schemaCode"] = self.schema_code(cls)
+        fp["stub"] = self.stub_text(c)
+
+    def stub_text(self, c):
+        """the .pyi text typedpy generates for the class, among the classes its definition depends on (the generated
+        `serialize` method of a FastSerializable class is not part of the class's definition: its line is dropped)"""
+        from typedpy.stubs.type_helpers import get_stubs_of_structures
+        from typedpy.structures import TypedPyDefaults
+        try:
+            need, stack = [], [c]
+            while stack:
+                d = stack.pop()
+                if d in need or d not in self.srcs:
+                    continue
+                need.append(d)
+                p = self.srcs[d].get("parent")
+                if p:
+                    stack.append(p["c"])
+                for f in self.srcs[d]["fields"]:
+                    if "ref" in f["kind"]:
+                        stack.append(f["kind"]["ref"])
+                    stack.extend(f["kind"].get("refs", []))
+            attrs = {}
+            for d in sorted(need, reverse=True):
+                attrs[self.classes[d].__name__] = self.classes[d]
+            cls = self.classes[c]
+            attrs[cls.__name__] = cls
+            # the generated serializer is state, not definition: it is taken off the class while the stub is made
+            saved = {k: cls.__dict__[k] for k in ("serialize", "_created_fast_serializer") if k in cls.__dict__}
+            for k in saved:
+                delattr(cls, k)
+            try:
+                lines = get_stubs_of_structures({cls.__name__: cls}, attrs, set(),
+                                                TypedPyDefaults.additional_properties_default)
+            finally:
+                for k, v in saved.items():
+                    setattr(cls, k, v)
+            return {"ok": [canon_msg(l) for l in lines if l.strip()]}
+        except Exception as e:
+            return {"err": err_name(e), "msg": canon_msg(e)}
 
     @staticmethod
     def schema_code(cls):
@@ -764,6 +831,8 @@ def _schema_ok(mk):
 
 
 def serve():
+    import logging
+    logging.disable(logging.CRITICAL)      # typedpy's stub generator logs the exceptions it re-raises
     import typedpy  # noqa: F401  (the pristine state every job starts from)
     import typedpy.json_schema  # noqa: F401
     out = sys.stdout
